@@ -97,6 +97,11 @@ impl Completions {
         crate::verif::yield_point(crate::verif::points::STORE_CQ_HEAD);
         unsafe { (&*self.entries_head.as_ptr()).store(head, Ordering::Release) };
 
+        // Wake futures waiting for a submission slot. Entering the kernel does
+        // this too, but only if it's called and returns successfully, a future
+        // that started waiting since then would otherwise never be woken.
+        shared.wake_blocked_futures();
+
         Ok(())
     }
 
